@@ -50,7 +50,7 @@ claim('C20', 'property-based testing: differential comparison of all public entr
       'Results are compared through Debug renderings.',
       'DESIGN.md 6 C20')
 claim('C12', 'property-based testing: metamorphic relation over layouts (same token positions, independently generated trivia runs) on generated programs, their token mutants and corpus files',
-      'Exploration: ~11 500 (quick) programs / mutants / corpus files are laid out several times with white space at the same inter-token positions but different runs (blanks, tabs, form feeds, CR/LF/CRLF, comments, argument-closed directives) or get `resetall between descriptions; acceptance must be the same and accepted trees equal once WhiteSpace subtrees are dropped; ~3 000 library maps under two white-space layouts (parse_lib_str). A difference is re-judged against listed finding K3 (one layout parsed differently at the production memo capacity than with the unbounded table).',
+      'Exploration: ~11 500 (quick) programs / mutants / corpus files are laid out several times with white space at the same inter-token positions but different runs (blanks, tabs, form feeds, CR/LF/CRLF, comments, argument-closed directives) or get `resetall between descriptions; acceptance must be the same and accepted trees equal once WhiteSpace subtrees are dropped; ~3 000 library maps under two white-space layouts (parse_lib_str); no token of an accepted tree other than a string literal may hold white space. A difference is re-judged against listed finding K3 (one layout parsed differently at the production memo capacity than with the unbounded table).',
       'Trivia generation respects the lexical preconditions listed in DESIGN.md 3.4; `pragma is excluded.',
       'DESIGN.md 6 C12')
 claim('C13', 'property-based testing: generated `begin_keywords region programs with later-only words as identifiers (must be accepted) and reserved-word mutants (must be rejected); tree-walk oracle with an independent keyword table',
